@@ -286,7 +286,13 @@ func runC07(c C07Case, ev *Evid) (fs []Finding) {
 		}
 		var db *wt.Whisper
 		var err error
-		if pm := guard(func() { db, err = wt.Create(p, al, wt.AggregationMethod(c.Method), xff) }); pm != "" || err != nil {
+		var opts []wt.Option
+		if c.XFFBits%5 == 0 {
+			// re-create in place over a longer, unrelated file (what a caller without O_EXCL does)
+			os.WriteFile(p, bytes.Repeat([]byte{0xEE}, int(size)+4096+int(c.XFFBits%977)), 0644)
+			opts = append(opts, wt.WithOpenFileFlag(os.O_RDWR|os.O_CREATE))
+		}
+		if pm := guard(func() { db, err = wt.Create(p, al, wt.AggregationMethod(c.Method), xff, opts...) }); pm != "" || err != nil {
 			add("create-fails", "Create of an accepted layout failed: %v %s", err, pm)
 			return
 		}
